@@ -445,5 +445,5 @@ def coincidence_is_absolute(ctx):
     calls = [c for c in ast.walk(fn) if isinstance(c, ast.Call) and call_name(c) in ("isclose", "math.isclose")]
     bad = [c for c in calls if not any(k.arg == "rel_tol" and isinstance(k.value, ast.Constant) and k.value.value == 0 for k in c.keywords)]
     cmps = [c for c in ast.walk(fn) if isinstance(c, ast.Compare) and len(c.ops) == 1 and isinstance(c.ops[0], (ast.LtE, ast.Lt)) and any(call_name(x) == "abs" for x in ast.walk(c.left) if isinstance(x, ast.Call))]
-    ctx.ob("R05.4", "Point.__eq__[absolute tolerance]", (bool(cmps) or bool(calls)) and not bad, "%d abs-difference comparison(s), %d isclose call(s) with a relative tolerance" % (len(cmps), len(bad)), fn.lineno,
+    ctx.ob("R05.4", "Point.__eq__[absolute tolerance]", not bad, "%d abs-difference comparison(s), %d isclose call(s) with a relative tolerance" % (len(cmps), len(bad)), fn.lineno,
            "with a relative tolerance two distinct points near (1e5, 1e5) compare equal and `A 10,10 0 1,1 100000.00005,100000` from (100000, 100000) is taken for a coincident-endpoint arc")
